@@ -10,6 +10,7 @@ pub mod gen;
 pub mod keys;
 pub mod der;
 pub mod iset;
+pub mod iterlaws;
 pub mod rtrsim;
 pub mod c01;
 pub mod c02;
